@@ -1,7 +1,11 @@
 #!/bin/sh
-# offline setup: only verifies that the tooling the checks need is importable
+# offline setup: checks that the tooling the checks need is importable, and machine-checks the
+# Lean lemma file (non-fatal: the per-property checks record whether its hash was verified)
 set -e
 cd "$(dirname "$0")"
 python3-vt -c "import z3, cvc5, mpmath; print('z3', z3.get_version_string())"
 test -d /repo/src/smoothmath
+if command -v lean >/dev/null 2>&1; then
+  timeout 1500 ./check lemmas || echo "setup: WARNING lean lemma check did not succeed on this machine"
+fi
 echo setup-ok
